@@ -2,6 +2,7 @@
 the concurrent half runs under the scheduler, see conc.py / c15 run below)."""
 from . import gen, lvl, conc
 from .lvlprop import *
+from .c06 import judges_agree
 
 
 def judge(rec, price, ops):
@@ -36,6 +37,82 @@ def judge(rec, price, ops):
                 return [(o["i"], "statistics after `%s`: added/removed/quantity/value = %d/%d/%d/%d, events say %d/%d/%d/%d" % (
                     op[:50], a, r, q, v, adds, rems, qty, val))]
     return []
+
+
+# ---- the statement handed to the extracted Coq judge (Spec/Judges.v: stats_b <=> StatsAgree; Properties/Tie.v
+# Tie_judge_stats*): one per history, on the last statistics the implementation reported and the events up to there.
+# Events: A|<order>   M|<qty>|<taker>|<txs>|<remaining>|<complete>   U|<update>|<outcome>.  Read-only calls are
+# left out (an ORead event counts 0 in every sum of Spec/StatsSpec.v); a history with any other operation (rebuild,
+# fork, external data) is outside `no_rebuild` and gets no statement.
+
+def stats_stmt_ok(price, added, removed, quantity, value, evs):
+    """python restatement of StatsAgree (Spec/Judges.v) on the event tokens of one history"""
+    adds = rems = qty = val = 0
+    for e in evs:
+        f = e.split("|")
+        if f[0] == "A":
+            adds += 1
+        elif f[0] == "U":
+            u = f[1].split(":")
+            if f[2].startswith("ok:") and f[2] != "ok:-" and (u[0] == "C" or (u[0] in ("UP", "UPQ", "RP") and int(u[2]) != price)):
+                rems += 1
+        else:
+            for t in gen.parse_list(f[3]):
+                x = t.split("/")
+                qty += int(x[4])
+                val += int(x[4]) * int(x[3])
+                if int(x[3]) != price:
+                    return False
+    return (added, removed, quantity, value) == (adds % W, rems % W, qty % W, val % W)
+
+
+def statements(rec, price, ops):
+    """-> [(opindex, JUDGE query, text, verdict of the python restatement on exactly this statement)]"""
+    evs, last = [], None
+    for o in rec["ops"]:
+        I = o["I"]
+        if I in ("panic", "timeout"):
+            break
+        if I == "skipped" or I.startswith("read="):
+            continue
+        d = lvl.kv(I.split(" || ")[0])
+        op = o["op"]
+        if op.startswith("ADD "):
+            evs.append("A|" + op[4:])
+        elif op.startswith("UPD "):
+            if "out" not in d:
+                break
+            evs.append("U|%s|%s" % (op[4:], d["out"]))
+        elif op.startswith("MATCH "):
+            if "txs" not in d:
+                break
+            _, q, taker = op.split(" ")
+            evs.append("M|%s|%s|%s|%s|%s" % (q, taker, d["txs"], d["rem"], d["complete"]))
+        elif op.startswith("READ") or op == "SNAP":
+            continue
+        else:
+            return []
+        if "st" in d:
+            last = (o["i"], op, d["st"], len(evs))
+    if not last:
+        return []
+    i, op, st, n = last
+    a, r, _, sq, sv = [int(x) for x in st.split("/")]
+    return [(i, "stats %d %d %d %d %d %s" % (price, a, r, sq, sv, " ".join(evs[:n])),
+             "statistics after `%s` (added/removed/quantity/value = %d/%d/%d/%d) are not the counts and sums over the events of the history" % (
+                 op[:50], a, r, sq, sv),
+             stats_stmt_ok(price, a, r, sq, sv, evs[:n]))]
+
+
+_STMTS = []      # (price, ops, opindex, query, python verdict) of the statements judged in this run
+
+
+def coq_queries(rec, price, ops):
+    out = []
+    for (i, q, text, py) in statements(rec, price, ops):
+        _STMTS.append((price, ops, i, q, py))
+        out.append((i, q, text))
+    return out
 
 
 def corr_filter(text):
@@ -99,4 +176,5 @@ def run(tier, seed, replay=None):
             from . import concprop
             return concprop.replay_conc("C15", tier, seed, r, lambda rec, prog, info: conc.judge_stats(rec, prog, info))
     return run_property("C15", tier, seed, replay, make_cases=make_cases, judge=judge, corr_filter=corr_filter,
-                        nontrivial=nontrivial_default, extra_obligations=conc_part)
+                        nontrivial=nontrivial_default, coq_queries=coq_queries,
+                        extra_obligations=lambda ck: (judges_agree(ck, _STMTS, "StatsAgree, per history"), conc_part(ck)))
